@@ -742,6 +742,31 @@ pub(super) fn on_close(k: &mut Kernel, fd: Fd) -> bool {
 /// Reap any sockets the shim has dropped that have now reached a
 /// terminal TCP state. Called at the end of each `egress` pass.
 pub(super) fn reap_closed(k: &mut Kernel) {
+    // An orphaned socket (the app dropped its handle) parked in
+    // `FinWait2` has nothing in flight, so the retransmit timer never
+    // looks at it. If the peer's FIN or RST is lost it would sit in the
+    // table forever. Give it the same patience a retransmitting socket
+    // gets, then close it (Linux: `tcp_fin_timeout` for orphans).
+    let limit = k.retx_threshold.saturating_mul(k.retx_max.saturating_add(1));
+    let orphans: Vec<Fd> = k
+        .sockets
+        .iter()
+        .filter(|(_, s)| {
+            s.fd_closed
+                && s.tcb
+                    .as_ref()
+                    .map(|t| t.state == TcpState::FinWait2)
+                    .unwrap_or(false)
+        })
+        .map(|(fd, _)| fd)
+        .collect();
+    for fd in orphans {
+        let tcb = k.sockets.get_mut(fd).unwrap().tcb.as_mut().unwrap();
+        tcb.egress_since_ack += 1;
+        if tcb.egress_since_ack > limit {
+            tcb.state = TcpState::Closed;
+        }
+    }
     let victims: Vec<Fd> = k
         .sockets
         .iter()
